@@ -216,6 +216,8 @@ int main(int argc, char** argv)
             {
                 stats.frozen   = true; // everything after this is shrinking
                 failed         = true;
+                p.hint         = ci.subject; // pin the subject by name in the saved program
+                text           = to_text(spec, config, p);
                 last_fail_text = text;
                 last_fail_sig  = v.signature;
                 last_fail_msg  = v.message;
